@@ -91,6 +91,7 @@ def sStep (s : List Vrp) : Op → List Vrp
   | .reset c vs => sReset s c vs
   | .val _ _ => s
   | .iter _ => s
+  | .display _ _ _ => s
 
 /-! ### the checker -/
 
@@ -127,7 +128,25 @@ def checkVal (s : List Vrp) (localAsn : Nat) (r : Net) (path : Option (List Seg)
         if res.state = expect then none
         else if endsInSet path ∧ res.state = rfc6811 s (some localAsn) r then some "origin-as-set-tail"
         else some "rfc6811-state"
-    | .it _ => some "observation-kind"
+    | _ => some "observation-kind"
+
+/-- check one `show` observation: the state shown by the API is the RFC 6811 state, and the
+    policy condition `rpki st` matched exactly when that state is `st` -/
+def checkShow (s : List Vrp) (localAsn : Nat) (st : VState) (r : Net) (path : Option (List Seg)) (ob : Ob) :
+    Option String :=
+  if pathBad path then none
+  else
+    let expect := rfc6811 s (originRfc localAsn path) r
+    match ob with
+    | .api none _ =>
+        if famOf s r.fam = [] then some "empty-table-unvalidated" else some "rfc6811-state"
+    | .api (some shown) filtered =>
+        if shown.1 ≠ expect then
+          if endsInSet path ∧ shown.1 = rfc6811 s (some localAsn) r then some "origin-as-set-tail"
+          else some "rfc6811-state"
+        else if filtered ≠ decide (expect = st) then some "policy-rpki-condition"
+        else none
+    | _ => some "observation-kind"
 
 /-- check one `iter` observation -/
 def checkIter (s : List Vrp) (f : Fam) (ob : Ob) : Option String :=
@@ -157,6 +176,13 @@ def checkFrom (localAsn : Nat) : Nat → List Vrp → List Op → List Ob → Ve
           | [] => .fail i "observation-count"
           | ob :: obs' =>
               match checkIter s f ob with
+              | some c => .fail i c
+              | none => checkFrom localAsn (i + 1) s ops obs'
+      | .display st r path =>
+          match obs with
+          | [] => .fail i "observation-count"
+          | ob :: obs' =>
+              match checkShow s localAsn st r path ob with
               | some c => .fail i c
               | none => checkFrom localAsn (i + 1) s ops obs'
       | .ins c n ml a => checkFrom localAsn (i + 1) (sStep s (.ins c n ml a)) ops obs
